@@ -1623,7 +1623,9 @@ namespace awkward {
       const int64_t* parents,
       int64_t maxcount,
       int64_t nextlen,
-      const int64_t* nextcarry);
+      const int64_t* nextcarry,
+      const int64_t* shifts,
+      int64_t lenshifts);
 
     ERROR ListOffsetArray_reduce_local_nextparents_64(
       kernel::lib ptr_lib,
